@@ -3,7 +3,7 @@
 From Coq Require Import List Bool Arith NArith Lia.
 Import ListNotations.
 From TarpcV Require Import Base Transport TimerWheel Server ServerMon ServerFuel ServerContract
-     ServerSim ServerSim2 ServerSim3 ServerSim4 ServerState.
+     ServerSim ServerSim2 ServerSim3 ServerSim4 ServerState ServerTrace.
 
 (* ------------------------------------------------------------------------------------------ *)
 (* the scripted transport's fuel measure: the inbox length *)
@@ -139,3 +139,27 @@ Lemma C09_server_drop_aborts :
 Proof.
   intros T s e Hd He. unfold drop_channel. rewrite Hd. cbn. apply in_or_app. left. apply in_map. exact He.
 Qed.
+
+(* ------------------------------------------------------------------------------------------ *)
+(* C18, server half: for EVERY transport, configuration and op list, the request a poll of the
+   Requests stream hands to the application carries the id, deadline, body and the TRACE NUMBER
+   (2 * trace_id + sampled bit: trace id and sampling decision) of the last request the transport
+   delivered in that poll; the server never rewrites them (the span id is drawn at the server and
+   is not part of any observation). *)
+Lemma C18_server_trace_preserved :
+  forall (T C : Type) (tp : transport T response cmsg) (ctl : T -> C -> T) (tfuel : T -> nat)
+         (c : cfg) (t0 : T) (ops : list (op C)),
+    forallb c18_poll (fst (run tp ctl tfuel c t0 ops)) = true.
+Proof. intros. unfold run. apply run_from_trace. Qed.
+
+Lemma C18_server_monitor :
+  forall (T C : Type) (tp : transport T response cmsg) (ctl : T -> C -> T) (tfuel : T -> nat)
+         (c : cfg) (t0 : T) (ops : list (op C)),
+    tfuel_ok tp tfuel -> c18s_ok (fst (run tp ctl tfuel c t0 ops)) = true.
+Proof.
+  intros. unfold c18s_ok. rewrite C14_server_total by assumption. cbn [andb].
+  apply C18_server_trace_preserved.
+Qed.
+
+Lemma C18_server_scripted : forall c t0 ops, c18s_ok (fst (srun c t0 ops)) = true.
+Proof. intros. unfold srun. apply C18_server_monitor. exact scripted_tfuel_ok. Qed.
